@@ -91,4 +91,10 @@ def printLine (number : Option Nat) (ts : List Token) : Str :=
   | some n => RStd.natDigits n ++ ' ' :: printTokens ts
   | none => printTokens ts
 
+/-- a lexed source line (`lang::Line`) -/
+structure Line where
+  number : Option Nat
+  tokens : List Token
+deriving Inhabited, DecidableEq
+
 end Basic
